@@ -358,6 +358,10 @@ def make_app_classes():
                 self.w.respond(iid, pol.get('resp', (5, 0)), ep=self.ep)
             elif mode == 'error':
                 self.w.respond_error(iid, ep=self.ep)
+            elif mode == 'cancelled':
+                fut.cancel()                                # the application gave up before it even returned the future
+            elif mode == 'cancel_soon':
+                self.w.loop.call_soon(fut.cancel)           # ... or right afterwards
             return fut
 
         async def request_stream(self, payload):
